@@ -4,3 +4,5 @@ import MpsVerif.Drv.Fifo
 import MpsVerif.Props.C01
 import MpsVerif.Props.C05
 import MpsVerif.Props.C08
+import MpsVerif.Drv.ProcOutcome
+import MpsVerif.Props.C12
